@@ -26,14 +26,14 @@ type RegistryInput struct {
 }
 
 var nameClasses = map[string][]string{
-	"plain":   {"db", "orders", "x1", "a-b_c"},
-	"unicode": {"дневник", "データ", "café", "ключ-🔑"},
-	"spaces":  {"my db", " lead", "trail ", "two  spaces"},
-	"nested":  {"a/b", "a/b/c", "x/y"},
-	"dotted":  {"./x", "x/.", "a/./b", ".hidden", "x."},
-	"slashes": {"x/", "a//b", "/x"},
+	"plain":        {"db", "orders", "x1", "a-b_c"},
+	"unicode":      {"дневник", "データ", "café", "ключ-🔑"},
+	"spaces":       {"my db", " lead", "trail ", "two  spaces"},
+	"nested":       {"a/b", "a/b/c", "x/y"},
+	"dotted":       {"./x", "x/.", "a/./b", ".hidden", "x."},
+	"slashes":      {"x/", "a//b", "/x"},
 	"inner-parent": {"a/../x", "a/b/../c"},
-	"empty":   {""},
+	"empty":        {""},
 }
 
 func typeOf(t string) string {
@@ -53,9 +53,9 @@ type regRun struct {
 	step  int
 	w     *sim.World
 	nodes map[string]*sim.Node
-	names map[string]string            // abstract name -> concrete
-	addrs map[string]string            // abstract address key -> real address
-	real  map[string]string            // real address -> abstract key
+	names map[string]string                 // abstract name -> concrete
+	addrs map[string]string                 // abstract address key -> real address
+	real  map[string]string                 // real address -> abstract key
 	open  map[string]map[string]iface.Store // instance -> abstract key -> store
 }
 
